@@ -362,7 +362,8 @@ def run_check(prop, tier, seed):
     write_evidence(prop, tier, seed, mod, results, reported, known_lines, harness, wall, nruns)
     if harness:
         print(f"HARNESS-ERROR {len(harness)} problem(s); first: {json.dumps(harness[0], default=str)[:1500]}")
-        return 2
+        if exit_code != 1:  # a confirmed, replayable violation is still the verdict
+            return 2
     ok = len(results)
     print(f"{prop} {tier}: {ok} runs, {len(viol)} violating observations, "
           f"{len(reported)} unknown clause(s), wall {wall:.1f}s")
